@@ -7,7 +7,7 @@
 From Coq Require Import List Bool Arith.
 Import ListNotations.
 Require Import MV.Model.Orch MV.Proofs.OrchP MV.Model.Worker MV.Spec.WorkerSpec.
-Require Import MV.Proofs.WorkerP MV.Proofs.WorkerExitP MV.Proofs.WorkerRefP MV.Proofs.WorkerStaleP MV.Proofs.WorkerWitP.
+Require Import MV.Proofs.WorkerP MV.Proofs.WorkerExitP MV.Proofs.WorkerRefP MV.Proofs.WorkerStaleP MV.Proofs.WorkerStreamP MV.Proofs.WorkerWitP.
 
 Theorem Worker_wf_plan_ok : forall order p, wf_plan order p = true -> plan_ok p /\ NoDup (map sid p).
 Proof. exact wf_plan_ok. Qed.
@@ -109,7 +109,7 @@ Theorem Worker_poll_never_raises : forall c st taken st', step c st (OPoll taken
   o st' = fold_left (fun a s => add_done s a) (polled_dones taken) (o st) /\
   (forall w, same_but_resq (ws st' w) (ws st w)) /\
   sc st' = sc st /\ tasks st' = tasks st /\ flight st' = flight st /\ sent st' = sent st /\ replies st' = replies st /\
-  dropfail st' = dropfail st.
+  dropfail st' = dropfail st /\ undelivered st' = undelivered st.
 Proof. exact poll_never_raises_l. Qed.
 Print Assumptions Worker_poll_never_raises.
 
@@ -196,6 +196,30 @@ Proof. exact store_leak_final_drop_refuted_l. Qed.
 Print Assumptions Worker_store_leak_final_drop_refuted.
 
 (* ================================================================================================================== *)
+(* (5) what the consumer of compute_stream receives.  The drain of one loop iteration hands its items over one at a time
+   (PYield pending: the consumer holds the head of `pending`; ONext = it asks for the next one).  In every reachable state:
+   the pending items are a segment of Orch.v's `yielded`; results are lost (ghost `undelivered` non-empty) ONLY when the
+   consumer closed the stream (exit kind XAbandon, or XFinallyCrash when set_artifacts raised after that), and what is lost is
+   exactly the part of that drain behind the item the consumer held - at least one item of the drain (`pre`) was delivered.
+   No hypothesis about the plan. *)
+Theorem Worker_stream_delivery : forall c st, reach c st ->
+  (forall pend, pc st = PYield pend ->
+     pend <> [] /\ undelivered st = [] /\ exists pre rest, yielded (o st) = pre ++ pend ++ rest) /\
+  (undelivered st <> [] ->
+     (xk (pc st) = Some XAbandon \/ pc st = PExited XFinallyCrash) /\
+     exists pre rest, pre <> [] /\ yielded (o st) = pre ++ undelivered st ++ rest).
+Proof. exact stream_delivery_l. Qed.
+Print Assumptions Worker_stream_delivery.
+
+(* what is lost was a properly collected result (a completed collecting step of the plan whose outputs are finished) and was
+   not also delivered (`yielded` has no duplicates): received = yielded minus undelivered, as counted by chk_proto *)
+Theorem Worker_undelivered_sound : forall c, plan_ok (cplan c) -> forall st, reach c st -> forall x, In x (undelivered st) ->
+  NoDup (yielded (o st)) /\ In x (yielded (o st)) /\
+  exists s, In s (cplan c) /\ sid s = x /\ collects s = true /\ In x (done (o st)) /\ incl (uuids s) (finished (o st)).
+Proof. exact undelivered_sound_l. Qed.
+Print Assumptions Worker_undelivered_sound.
+
+(* ================================================================================================================== *)
 (* non-vacuity *)
 Example Worker_ex_plan_ok : plan_ok wp2 /\ NoDup (map sid wp2).
 Proof. exact wp2_ok. Qed.
@@ -217,6 +241,14 @@ Proof. exact ex_sendfail_l. Qed.
 Example Worker_ex_sendfail_new_worker : exists st, exec (wc_mp nof) pinit tr_sendfail_new = Some st /\ pc st = PExited XRaisedBody /\
   sent st = [] /\ tasks st = [5] /\ phase (ws st 5) = WKilled /\ joined (ws st 5) = true.
 Proof. exact ex_sendfail_new_l. Qed.
+(* a THREADING stream closed after the first of two items of one drain: the second result is lost, both threads joined;
+   the same run consumed to the end *)
+Example Worker_ex_partial_abandon : exists st, exec wc_thr_stream pinit tr_partial_abandon = Some st /\ pc st = PExited XAbandon /\
+  yielded (o st) = [1; 0] /\ undelivered st = [0] /\ joined (ws st 0) = true /\ joined (ws st 1) = true.
+Proof. exact ex_partial_abandon_l. Qed.
+Example Worker_ex_partial_full : exists st, exec wc_thr_stream pinit tr_partial_full = Some st /\ pc st = PExited XNormal /\
+  yielded (o st) = [1; 0] /\ undelivered st = [].
+Proof. exact ex_partial_full_l. Qed.
 (* the projection of the fault-free run and its Orch.v outcome *)
 Example Worker_ex_projection : fst (proj (wc_mp nof) pinit tr_mp_ok ([], [])) = [EScan; EDone 0 true; EDone 1 true; EScan] /\
   loop_head wp2 (run false false nofail wp2 (fst (proj (wc_mp nof) pinit tr_mp_ok ([], [])))) = ExitNormal.
